@@ -117,9 +117,9 @@ var Probes = []Probe{
 		Run: expectGlobal("a := [1, 2, 3]\nb := a + [4]\nc := a + [5]\n", "b", "(a (i 1) (i 2) (i 3) (i 4))")},
 	{ID: "O6", Props: []string{"C01"}, Input: `b := bytes("hello"); p := b[0:2]; q := p + bytes("XY")`, WhatFail: "bytes + appends in place into the storage its left operand shares with b",
 		Run: expectGlobal("b := bytes(\"hello\")\np := b[0:2]\nq := p + bytes(\"XY\")\n", "b", "(y #68656c6c6f)")},
-	{ID: "O4", Props: []string{"C09"}, Input: "x := immutable([1,2,3]); y := x[0:2]; y[0] = 99", WhatFail: "a slice of an immutable array shares its storage: writing the slice changes the immutable value",
+	{ID: "O4", Props: []string{"C09", "C01"}, Input: "x := immutable([1,2,3]); y := x[0:2]; y[0] = 99", WhatFail: "a slice of an immutable array shares its storage: writing the slice changes the immutable value",
 		Run: expectGlobal("x := immutable([1, 2, 3])\ny := x[0:2]\ny[0] = 99\n", "x", "(ia (i 1) (i 2) (i 3))")},
-	{ID: "O5", Props: []string{"C09"}, Input: "x := immutable([1,2,3]); y := append(x[0:2], 7)", WhatFail: "append to (a slice of) an immutable array writes into the immutable value's storage",
+	{ID: "O5", Props: []string{"C09", "C01"}, Input: "x := immutable([1,2,3]); y := append(x[0:2], 7)", WhatFail: "append to (a slice of) an immutable array writes into the immutable value's storage",
 		Run: expectGlobal("x := immutable([1, 2, 3])\ny := append(x[0:2], 7)\n", "x", "(ia (i 1) (i 2) (i 3))")},
 	{ID: "O5b", Props: []string{"C09", "C01"}, Input: "x := immutable([1,2,3]); z1 := x + immutable([8]); z2 := x + immutable([9])", WhatFail: "immutable-array + appends into the spare capacity of its left operand: z1 is rewritten by the second +",
 		Run: expectGlobal("x := immutable([1, 2, 3])\nz1 := x + immutable([8])\nz2 := x + immutable([9])\n", "z1", "(a (i 1) (i 2) (i 3) (i 8))")},
@@ -137,7 +137,7 @@ var Probes = []Probe{
 			}
 			return false, ""
 		}},
-	{ID: "O27", Props: []string{"C01", "C02"}, Input: "call with 256 arguments", WhatFail: "the argument count of OpCall is one byte: a call with 256 arguments is compiled as a call with 0 arguments",
+	{ID: "O30", Props: []string{"C01", "C02"}, Input: "call with 256 arguments", WhatFail: "the argument count of OpCall is one byte: a call with 256 arguments is compiled as a call with 0 arguments",
 		Run: func() (bool, string) {
 			var ps, as []string
 			for i := 0; i < 256; i++ {
